@@ -30,6 +30,13 @@ def generate(rng, tier):
         typ = muxgen.FLT if rng.random() < 0.1 else muxgen.INT
         ast, _ = g.pipe(typ, 0, rng.randint(1, 3))
         trace = muxgen.gen_trace(rng, typ)
+        if rng.random() < 0.12:
+            # an operator that remembers something about its key at the head, bursts of one key then another
+            head = rng.choice([['assert1', ['lt']], ['assert1', ['le']], ['lag', 1], ['lag', 2], ['duc', None], ['distinct', None],
+                               ['scan', ['add'], muxgen.ev(0), 0, None], ['pad_start', 1, muxgen.ev(None)], ['take', 2],
+                               ['start_with', [muxgen.ev(50)]], ['first'], ['batch', 2]])
+            ast = [head] + muxgen.Gen(rng, heads=False).pipe(muxgen.INT if head[0] in ('assert1', 'duc', 'distinct', 'scan', 'pad_start', 'take', 'start_with', 'first') else muxgen.ANY, 0, rng.randint(0, 2))[0]
+            trace = muxgen.gen_trace(rng, muxgen.INT, nkeys=rng.choice([2, 3]), sorted_=True, bursts=True)
         cases.append({'ast': ast, 'trace': trace})
     return cases
 
@@ -57,6 +64,28 @@ def oracle(case, obs):
         return None
     steps = obs['steps']
     if has_fatal(steps):
+        # on_error ends the run: the lifetime it occurred in must fail at the same event when run alone
+        pf = next(p for p, st in enumerate(steps) if any(o[0] == 'fatal' for o in st))
+        k = tuple(case['trace'][pf][1])
+        occ, cur = [], None
+        for p, e in enumerate(case['trace'][:pf + 1]):
+            if tuple(e[1]) == k:
+                if e[0] == 'c':
+                    cur = []
+                    occ.append(cur)
+                cur.append(p)
+        li = sum(1 for e in case['trace'][:pf + 1] if e[0] == 'c') - 1
+        # index of that lifetime in creation order
+        li = [i for i, e in enumerate([e for e in case['trace'] if e[0] == 'c']) if True]
+        order = [p for p, e in enumerate(case['trace']) if e[0] == 'c']
+        start = occ[-1][0]
+        lidx = order.index(start)
+        a = obs['alone'][lidx]
+        j = occ[-1].index(pf)
+        if not isinstance(a, dict) and j < len(a) and not any(o[0] == 'fatal' for st in a[:j + 1] for o in st):
+            return {'sig': 'confinement:fatal:' + first_stateful(case['ast']),
+                    'what': 'key %s: on_error at event %d in context, but the same lifetime run alone passes that item (%s)'
+                            % (list(k), pf, json.dumps(a[j])[:120])}
         return None
     # positions of every lifetime occurrence
     pos, order = {}, []
